@@ -22,7 +22,11 @@ pub struct Case {
 
 pub struct P;
 
-pub const GAPS: &[&str] = &["", "|", "| ", "\u{65e5}", "  ", " | ", " |", "\x1b[2m|\x1b[0m"];
+pub const GAPS: &[&str] = &[
+    "", "|", "| ", "\u{65e5}", "  ", " | ", " |", "\x1b[2m|\x1b[0m",
+    // non-empty but zero columns wide (a colour reset between columns)
+    "\x1b[0m", "\u{200b}",
+];
 
 pub fn check(c: &Case) -> Outcome {
     let spec = &c.spec;
